@@ -7,6 +7,9 @@ python predicates below mirror coq/C12/Spec.v *_ok), because outside it the C++ 
 undefined behaviour (signed overflow) that the harness cannot observe as an outcome.
 """
 from math import gcd
+import math
+import struct
+from fractions import Fraction
 
 ID = "C12"
 LEVEL = "proof"
@@ -200,6 +203,50 @@ def interesting_counts(P, rng, nrand):
     return sorted(out)
 
 
+def dbits(x):
+    return struct.unpack("<Q", struct.pack("<d", x))[0]
+
+
+FBASE = [0.0, -0.0, 1.0, -1.0, 0.5, -0.5, 1.5, 2.5, -2.5, 3.5, -3.5, 1.0 / 3, -2.0 / 3, 0.1, 1e-9, 7.0, 1000.0, 1500.0,
+         -1500.5, 90.0, 30.0, 86399.5, 2.0**52 + 1.0, -(2.0**53), 123456789.123, 59.99999999999999, 60.00000000000001]
+
+
+def float_source_cases(P, rng, quick):
+    """duration<double, P1> arguments as bit patterns; every case stays where double -> int64 is defined"""
+    out = []
+    h = P.head
+    F = Fraction(P.A, P.B)           # exact conversion factor
+    xs = list(FBASE) + [rng.uniform(-1e6, 1e6), rng.uniform(-10, 10), float(rng.randint(-10**9, 10**9))]
+    # arguments whose exact image is a tie (k + 1/2) or an integer k, when such a double exists
+    for k in (-3, -2, -1, 0, 1, 2, 3, 1000, -1001):
+        for num in (2 * k + 1, 2 * k):
+            x = Fraction(num, 2) / F
+            if Fraction(float(x)) == x:
+                xs.append(float(x))
+                xs.append(math.nextafter(float(x), math.inf))
+                xs.append(math.nextafter(float(x), -math.inf))
+    if not quick:
+        xs += [rng.uniform(-1e12, 1e12) for _ in range(200)] + [float(c) for c in range(-50, 51)]
+    seen = set()
+    for x in xs:
+        b = dbits(x)
+        if b in seen:
+            continue
+        seen.add(b)
+        out.append(f"{h('d_cast')} {b}")
+        if abs(Fraction(x) * F) < 2**62:
+            out.append(f"{h('d_rnd4')} {b}")
+    ys = [1.0, -1.0, 0.5, 2.5, -1.0 / 3, 1000.0, 7.25, rng.uniform(-100, 100)]
+    xa = [0.0, 1.0, -1.0, 1.5, 1.0 / 3, 1000.0, -7.25, 2.0**53, rng.uniform(-100, 100)]
+    if quick:
+        xa, ys = xa[::2] + [xa[1]], ys[::2] + [ys[1]]
+    # equal values: x * n1/d1 == y * n2/d2
+    pairs = [(x, y) for x in xa for y in ys] + [(float(P.cd), float(P.cn)), (-float(P.cd) / 2, -float(P.cn) / 2)]
+    for (x, y) in pairs:
+        out.append(f"{h('d_arith')} {dbits(x)} {dbits(y)}")
+    return out
+
+
 SMALL = [0, 1, -1, 2, -2, 3, -3, 7, -7, 59, 60, -60, 61, 999, 1000, -1000, 1001, -1999, 2000, 30000, -30000, 86399]
 
 
@@ -209,6 +256,7 @@ def gen(tier, rng):
     z = "0 0 0 1 1 64 1 1 64"
     out.append(f"typedefs {z}")
     out.append(f"typedef_bits {z}")
+    out.append(f"sratio {z}")
     sweep = range(-2000, 2001)
     for i in range(NP):
         for j in range(NP):
@@ -328,6 +376,9 @@ def gen(tier, rng):
                             out.append(f"{h('ub_minus')} {c1} {c2}")
                             out.append(f"{h('ub_div')} {c1} {c2}")
                             out.append(f"{h('ub_mod')} {c1} {c2}")
+                # ---- floating-point source representation (core pairs, int64/double reps)
+                if core and rc == 0:
+                    out.extend(float_source_cases(P, rng, quick))
                 # ---- two counts
                 if not P.common_ok:
                     continue
